@@ -613,6 +613,9 @@ func (p *Core) tokApplyRelay(ci int, r *sim.TxResult, ps *PktState, lbl string) 
 			p.trackEscrow(ci, dstDenom, x.Amount.Neg())
 			p.tok.blockKinds["unwind"] = true
 			w.Stats.Probe("transfer_unwound")
+			if p.C[ci].MinVersion > 1 {
+				w.Stats.Probe("voucher_returned_to_chain_restarted_from_genesis")
+			}
 			w.Stats.NonTrivial("return:" + rt.Kind + ":" + classifyDenom(dstDenom))
 		} else {
 			v := dstDenom
